@@ -25,7 +25,7 @@ from jsonrpclib.SimpleJSONRPCServer import (PooledJSONRPCServer, SimpleJSONRPCRe
                                             CGIJSONRPCRequestHandler)
 from harness import netpeer
 
-CHARS = {1: "aZ0 {\"", 2: "éñ¢", 3: "名€ก", 4: "𝄞😀𐍈"}
+CHARS = {1: "aZ0 {\"", 2: "éñ¢\u0301\u0308", 3: "名€ก\u212b\u1e9b", 4: "𝄞😀𐍈"}        # (incl. combining marks / compatibility characters: text is not normalised)
 
 
 def text_for(ws, rnd):
